@@ -144,13 +144,13 @@ package text
 //@   ensures [run] cur0 <= int(np)-f.offset && int(np)-f.offset <= f.len
 //@   ensures [allws] forall k int :: cur0 <= k && k < int(np)-f.offset ==> isWs(f.data[k])
 //@   ensures [maximal] int(np)-f.offset == f.len || !isWs(f.data[int(np)-f.offset])
-//@   ensures [none;C10] m == WsNone ==> (err != nil) == (int(np) > int(pos)) && (err != nil ==> err.Pos() == pos)
-//@   ensures [spaces;C10] m == WsSpaces ==> (err != nil) == (exists k int :: cur0 <= k && k < int(np)-f.offset && isLb(f.data[k]))
-//@   ensures [spaces-pos;C10] m == WsSpaces && err != nil ==> cur0 <= int(err.Pos())-f.offset && int(err.Pos())-f.offset < int(np)-f.offset && isLb(f.data[int(err.Pos())-f.offset]) && forall k int :: cur0 <= k && k < int(err.Pos())-f.offset ==> !isLb(f.data[k])
-//@   ensures [nl;C10] m == WsSpacesNl ==> err == nil
-//@   ensures [forcenl;C10] m == WsSpacesForceNl ==> (err == nil) == (exists k int :: cur0 <= k && k < int(np)-f.offset && isLb(f.data[k])) && (err != nil ==> err.Pos() == np)
-//@   ensures [othermodes;C10] m > WsSpacesForceNl ==> err == nil
-//@   ensures [kind;C10] err != nil ==> parsley.IsWsErr(err)
+//@   ensures [none;C10,C09] m == WsNone ==> (err != nil) == (int(np) > int(pos)) && (err != nil ==> err.Pos() == pos)
+//@   ensures [spaces;C10,C09] m == WsSpaces ==> (err != nil) == (exists k int :: cur0 <= k && k < int(np)-f.offset && isLb(f.data[k]))
+//@   ensures [spaces-pos;C10,C09] m == WsSpaces && err != nil ==> cur0 <= int(err.Pos())-f.offset && int(err.Pos())-f.offset < int(np)-f.offset && isLb(f.data[int(err.Pos())-f.offset]) && forall k int :: cur0 <= k && k < int(err.Pos())-f.offset ==> !isLb(f.data[k])
+//@   ensures [nl;C10,C09] m == WsSpacesNl ==> err == nil
+//@   ensures [forcenl;C10,C09] m == WsSpacesForceNl ==> (err == nil) == (exists k int :: cur0 <= k && k < int(np)-f.offset && isLb(f.data[k])) && (err != nil ==> err.Pos() == np)
+//@   ensures [othermodes;C10,C09] m > WsSpacesForceNl ==> err == nil
+//@   ensures [kind;C10,C09] err != nil ==> parsley.IsWsErr(err)
 //@   assigns nothing
 //@ loop 1 (cur int, nlPos parsley.Pos)
 //@   invariant cur0 <= cur && cur <= f.len
@@ -241,8 +241,8 @@ package text
 //@   ensures [bound] int(pos) <= int(np) && int(np) <= r.file.offset + r.file.len
 //@   ensures [advance] v != nil ==> int(np) > int(pos)
 //@   logs Readf#f
-//@   ensures [eof;C09] int(pos) - r.file.offset >= r.file.len ==> ncalls() == 0 && np == pos && v == nil
-//@   ensures [what;C09] int(pos) - r.file.offset < r.file.len ==> ncalls() == 1 && same(callarg[[]byte](1, 0), r.file.data[int(pos)-r.file.offset:]) && int(np) == int(pos) + callres[int](1, 1) && same(v, callres[[]byte](1, 0))
+//@   ensures [eof;C09,C12] int(pos) - r.file.offset >= r.file.len ==> ncalls() == 0 && np == pos && v == nil
+//@   ensures [what;C09,C12] int(pos) - r.file.offset < r.file.len ==> ncalls() == 1 && same(callarg[[]byte](1, 0), r.file.data[int(pos)-r.file.offset:]) && int(np) == int(pos) + callres[int](1, 1) && same(v, callres[[]byte](1, 0))
 //@   assigns nothing
 //@ callee f(b []byte) (v []byte, n int)
 //@   requires len(b) >= 1
